@@ -21,6 +21,11 @@ EXTENDS Util, SequencesExt, TLC
 NoMax == 1000000
 SLASH == 47
 
+\* the name -name looks at: the last component, trailing slashes of a starting point ignored ("d/" is "d"; "/" is "/")
+RECURSIVE StripSlashes(_)
+StripSlashes(p) == IF Len(p) > 1 /\ p[Len(p)] = SLASH THEN StripSlashes(SubSeq(p, 1, Len(p) - 1)) ELSE p
+NameOf(p) == LET q == StripSlashes(p) IN IF q = <<SLASH>> THEN q ELSE SubSeq(q, LastIndexOf(q, SLASH) + 1, Len(q))
+
 ChildPath(p, name) == IF p # <<>> /\ p[Len(p)] = SLASH THEN p \o name ELSE p \o <<SLASH>> \o name
 
 Children(tree, p) == {i \in DOMAIN tree : tree[i].parent = p}
